@@ -1,7 +1,7 @@
 (** * C12 property theorems — statements only; proofs live in C12/*Proofs.v. *)
 From Coq Require Import Reals ZArith List.
 From Celer Require Import Base.Num Base.NumR Base.Vec3
-  C12.Solver C12.Surfaces C12.Transforms C12.SolverProofs C12.SurfacesProofs C12.TransformsProofs C12.Simplify C12.SimplifyProofs.
+  C12.Solver C12.Surfaces C12.Transforms C12.SolverProofs C12.SurfacesProofs C12.TransformsProofs C12.Simplify C12.SimplifyProofs C12.TransformSimplify C12.TransformSimplifyProofs C12.Involute C12.InvoluteProofs C12.SimplifyConvProofs.
 Import ListNotations.
 Local Open Scope R_scope.
 
@@ -196,3 +196,122 @@ Theorem C12_simplify_sense : forall tol s s' flip p, 0 < tol < 1 ->
   surf_sense s' p = if flip then flip_ssense (surf_sense s p) else surf_sense s p.
 Proof. exact simplify_sense. Qed.
 Print Assumptions C12_simplify_sense.
+
+(** ** TransformSimplifier (transform/TransformSimplifier.cc): Transformation -> Translation ->
+    NoTransformation.  [vt_wf]: the rotation matrix is orthogonal (rotation or reflection);
+    a valid Tolerance has 0 < rel < 1.  Whatever variant is returned, applied to any point it
+    differs from the original by at most eps |p| (iff the rotation was dropped) + eps (iff the
+    translation was dropped); an unchanged variant gives exactly the same point. *)
+Theorem C12_simplify_transform_pointwise : forall eps v p, 0 <= eps -> eps * eps < 2 -> vt_wf v ->
+  let v' := simplify_transform eps v in
+  vdist (vt_up v' p) (vt_up v p)
+    <= (if rot_dropped v v' then eps * vnorm p else 0) + (if tra_dropped v v' then eps else 0).
+Proof. exact simplify_transform_pointwise. Qed.
+Print Assumptions C12_simplify_transform_pointwise.
+
+(** the soft-identity test itself: tr R >= 3 - eps^2 bounds the displacement of every point
+    (a reflection never passes it) *)
+Theorem C12_soft_identity_rotation : forall eps m p, orthogonal m -> 0 <= eps -> eps * eps < 2 ->
+  3 - eps * eps <= mtrace m -> vnorm (vsub (rot_only m p) p) <= eps * vnorm p.
+Proof. exact soft_identity_rotation. Qed.
+Print Assumptions C12_soft_identity_rotation.
+
+(** exact when the rotation IS the identity / the translation IS zero *)
+Theorem C12_simplify_identity_exact : forall eps tra p, 0 <= eps ->
+  simplify_transformation eps (TF mat3_id tra) = simplify_translation eps tra /\
+  tf_up (TF mat3_id tra) p = tr_up tra p /\
+  simplify_translation eps (V3 0 0 0) = VNoTransformation /\ tr_up (V3 0 0 0) p = p.
+Proof. exact simplify_identity_exact. Qed.
+Print Assumptions C12_simplify_identity_exact.
+
+(** ** Involute (surf/Involute.hh, detail/InvolutePoint.hh, detail/InvoluteSolver.hh,
+    corecel/math/IllinoisRootFinder.hh); constants::pi := PI.
+    [inv_local_xy]: position relative to the origin, x mirrored for the right-handed chirality;
+    [inv_tsq] = |xy|^2 / r_b^2 - 1 = t^2; [inv_a1] = lifted tangent angle - t. *)
+(** the point lies on the involute of the same base circle with displacement angle a1, at parameter t *)
+Theorem C12_involute_point_on_own_involute : forall (s : involute R) (x y : R),
+  inv_rbs s <> 0 -> 0 <= inv_tsq s x y ->
+  involute_point (inv_rb s) (inv_a1 s x y) (sqrt (inv_tsq s x y)) = (x, y).
+Proof. exact inv_point_on_own_involute. Qed.
+Print Assumptions C12_involute_point_on_own_involute.
+
+(** calc_sense is the sign of a - a1 (inside = the point's own involute is displaced further) *)
+Theorem C12_involute_sense_is_sign : forall (s : involute R) (pos : vec3 R),
+  let '(x, y) := inv_local_xy s pos in
+  inv_in_bounds s x y -> ~ inv_on_check s x y ->
+  inv_theta_of s x y < inv_tmax s + inv_a s -> inv_a1 s x y <> inv_a s ->
+  sense_matches (inv_calc_sense PI s pos) (inv_a s - inv_a1 s x y).
+Proof. exact inv_sense_is_sign. Qed.
+Print Assumptions C12_involute_sense_is_sign.
+
+(** the exact "on" test uses InvolutePoint(t^2) instead of InvolutePoint(t): On is answered
+    only at t^2 = 0 or 1, and a point exactly on the surface is in general not On *)
+Theorem C12_involute_sense_on_only_at : forall (s : involute R) (pos : vec3 R),
+  inv_rbs s <> 0 -> inv_calc_sense PI s pos = On ->
+  let '(x, y) := inv_local_xy s pos in inv_tsq s x y = 0 \/ inv_tsq s x y = 1.
+Proof. exact inv_sense_on_only_at. Qed.
+Print Assumptions C12_involute_sense_on_only_at.
+
+Theorem C12_involute_sense_on_surface_refuted :
+  exists (s : involute R) (pos : vec3 R) (t : R),
+    inv_tmin s <= t <= inv_tmax s /\
+    inv_local_xy s pos = involute_point (inv_rb s) (inv_a s) t /\
+    inv_calc_sense PI s pos <> On.
+Proof. exact inv_sense_on_surface_refuted. Qed.
+Print Assumptions C12_involute_sense_on_surface_refuted.
+
+(** calc_normal: unit, in the x-y plane, orthogonal to the curve's tangent direction at the position's parameter *)
+Theorem C12_involute_normal_unit_orthogonal : forall (s : involute R) (pos : vec3 R),
+  let n := inv_calc_normal s pos in
+  let x := vx pos - inv_ox s in let y := vy pos - inv_oy s in
+  let ang := sqrt (clamp_to_nonneg (inv_tsq s x y)) + inv_a s in
+  vdot n n = 1 /\ vz n = 0 /\
+  vx n * (if inv_right s then - cos ang else cos ang) + vy n * sin ang = 0.
+Proof. exact inv_normal_unit_orthogonal. Qed.
+Print Assumptions C12_involute_normal_unit_orthogonal.
+
+(** IllinoisRootFinder: a call that ends with iterations to spare returns |f(root)| <= tol *)
+Theorem C12_illinois_converged : forall (func : R -> R) (tol l r root : R),
+  illinois func tol l r = (root, true) -> Rabs (func root) <= tol.
+Proof. exact illinois_converged. Qed.
+Print Assumptions C12_illinois_converged.
+
+(** InvoluteSolver: every returned distance is positive and its hit point is within sqrt 2 * err of
+    InvolutePoint(tg), tmin <= tg <= tmax, err <= r_b * 1e-8 when all root finder calls converged *)
+Theorem C12_involute_intersections_on_surface :
+  forall rb a (right : bool) tmin tmax (pos dir : vec3 R) (on : bool) ds conv fin,
+  0 <= rb -> 0 <= tmin ->
+  inv_solve PI rb a right tmin tmax pos dir on = (ds, conv, fin) ->
+  forall d, In d ds ->
+    let x := if right then - vx pos else vx pos in let y := vy pos in
+    let u0 := if right then - vx dir else vx dir in let v0 := vy dir in
+    exists tg err, tmin <= tg <= tmax /\ 0 < d /\ 0 <= err /\
+      (let '(qx, qy) := involute_point rb a tg in
+       (x + d * u0 - qx) * (x + d * u0 - qx) + (y + d * v0 - qy) * (y + d * v0 - qy) <= 2 * (err * err)) /\
+      (conv = true -> err <= rb * / 100000000).
+Proof. exact inv_intersections_on_surface. Qed.
+Print Assumptions C12_involute_intersections_on_surface.
+
+(** ** the converters' early exits on their own: QuadricCylConverter(axis t) answers only when BOTH the
+    second- and the first-order coefficient along t are soft zeros (paraboloids are not cylinders);
+    QuadricSphereConverter only when ALL three second-order coefficients are softly equal *)
+Theorem C12_sq_to_cyl_some_only : forall tol t (abc def : vec3 R) g s',
+  sq_to_cyl tol t abc def g = Some s' ->
+  soft_equal tol 0 (vget t abc) = true /\ soft_equal tol 0 (vget t def) = true /\
+  soft_equal tol (vget (u_axis t) abc) (vget (v_axis t) abc) = true /\
+  exists ou ov rsq, s' = SCylAligned t ou ov rsq /\ 0 < rsq.
+Proof. exact sq_to_cyl_some_only. Qed.
+Print Assumptions C12_sq_to_cyl_some_only.
+
+Theorem C12_sq_to_cyl_none_axis_terms : forall tol t (abc def : vec3 R) g,
+  soft_equal tol 0 (vget t abc) = false \/ soft_equal tol 0 (vget t def) = false ->
+  sq_to_cyl tol t abc def g = None.
+Proof. exact sq_to_cyl_none_axis_terms. Qed.
+Print Assumptions C12_sq_to_cyl_none_axis_terms.
+
+Theorem C12_sq_to_sphere_some_only : forall tol (abc def : vec3 R) g s',
+  sq_to_sphere tol abc def g = Some s' ->
+  soft_equal tol (vx abc) (vy abc) = true /\ soft_equal tol (vx abc) (vz abc) = true /\
+  exists o rsq, s' = SSphere o rsq /\ 0 < rsq.
+Proof. exact sq_to_sphere_some_only. Qed.
+Print Assumptions C12_sq_to_sphere_some_only.
